@@ -69,6 +69,7 @@ _FP_TAG_VECTOR = 0x5645435F5441475F
 _FP_TAG_SET = 0x5345545F5441475F
 _FP_TAG_LIST = 0x4C4953545F544147
 _FP_TAG_TUPLE = 0x5455504C455F5447
+_FP_TAG_COMPLEX = 0x434F4D504C45585F
 
 
 def _mix64(z: int) -> int:
@@ -256,6 +257,11 @@ class Vector():
 			if math.isnan(x):
 				return 0xDEADBEEFCAFEBABE
 			return _mix64(hash(x))
+
+		if isinstance(x, complex) and x != x:
+			# (a NaN part makes hash(x) depend on the object's identity, as for a float NaN:
+			# hash the two parts instead, where NaN has its constant)
+			return _mix64(Vector._hash_element((x.real, x.imag)) ^ _FP_TAG_COMPLEX)
 
 		if isinstance(x, set):
 			rep = _safe_sortable_list(list(x))
